@@ -138,7 +138,7 @@ func (ex *Executor) VerifyUnit(key string, spec *FuncSpec) {
 		ex.errf("%s has no body", key)
 		return
 	}
-	st := &State{heap: map[string]*Term{}, globals: map[*ssa.Global]Val{}, alloc: Sym("alloc@0", SInt), segStart: "entry", segHeap: map[string]*Term{}, segSpec: spec}
+	st := &State{heap: map[string]*Term{}, globals: map[*ssa.Global]Val{}, alloc: Sym("alloc@0", SInt), segStart: "entry", segHeap: map[string]*Term{}, birth: map[string]*Term{}, segSpec: spec}
 	st.assume(Ge(st.alloc, Num(0)))
 	fr := ex.newFrame(fn, spec, 0)
 	fr.unit = true
@@ -366,15 +366,10 @@ func (ex *Executor) enterBlock(st *State, fr *Frame, to *ssa.BasicBlock) bool {
 	} else {
 		var cells []ssa.Value
 		w := ex.writtenInBlocksP(fr.fn, loopBlocks, &cells)
+		st.havocNames(w)
 		if w["*"] {
-			for _, n := range st.heapNames() {
-				st.havocHeap(n)
-			}
 			ex.note("loop %d of %s without modifies clause contains calls: whole heap havocked at the cut", ord, ex.unitKey)
 		} else {
-			for n := range w {
-				st.havocHeap(n)
-			}
 			for _, c := range cells {
 				if pv, ok := fr.vals[c]; ok {
 					ex.store(st, pv, ex.freshOfType(st, "hv."+c.Name(), c.Type().Underlying().(*types.Pointer).Elem()))
@@ -387,6 +382,7 @@ func (ex *Executor) enterBlock(st *State, fr *Frame, to *ssa.BasicBlock) bool {
 	na := Fresh("alloc", SInt)
 	st.assume(Ge(na, st.alloc))
 	st.alloc = na
+	st.rebirth(preHeap)
 	env = ex.envFor(st, fr)
 	for _, c := range ls.Invs {
 		v, err := ex.evalSpec(c.Expr, env)
@@ -670,14 +666,14 @@ func (ex *Executor) ptrOf(v Val) *Ptr {
 func cellName(s Sort) string { return "cell." + string(s) }
 func elemName(s Sort) string { return "E." + string(s) }
 
-// elemNameT: element heap of arrays with this element type. Byte arrays live in their own map: without unsafe,
-// a []byte (or [n]byte) can never share memory with an array of another element type.
+// elemNameT: element heap of arrays with this element type. Arrays of different (underlying) element types live in
+// different maps: without unsafe, two slices can share memory only if their element types have identical
+// underlying types.
 func elemNameT(elem types.Type) string {
-	if b, ok := elem.Underlying().(*types.Basic); ok && (b.Kind() == types.Uint8 || b.Kind() == types.Byte) {
-		return "E.Int.u8"
-	}
-	return elemName(sortOf(elem))
+	return "E." + string(sortOf(elem)) + "." + sanitize(types.TypeString(elem.Underlying(), nil))
 }
+
+var byteElems = elemNameT(types.Typ[types.Uint8])
 
 func (ex *Executor) subRef(st *State, owner types.Type, fname string, base *Term) *Term {
 	return App(subFnName(owner, fname), SInt, base)
@@ -722,13 +718,31 @@ func (ex *Executor) loadedFacts(st *State, v Val) {
 	}
 	st.assume(rangeFact(v.T, v.Ty))
 	if v.Ty != nil {
+		// a reference read from a heap map at an object that already existed when that map version came into
+		// being was stored no later than that (objects allocated later may hold later references)
+		var older *Term // condition under which the tighter bound applies
+		var tight *Term
+		if v.T.Op == "select" && st.birth != nil && v.T.Args[0].Op != "select" {
+			if b, ok := st.birth[v.T.Args[0].Key()]; ok {
+				older, tight = Le(v.T.Args[1], b), b
+			}
+		}
+		bound := st.alloc
+		if tight != nil {
+			if isPointerLike(v.Ty) {
+				st.assume(Implies(older, Le(v.T, tight)))
+			}
+			if _, ok := v.Ty.Underlying().(*types.Slice); ok {
+				st.assume(Implies(older, Le(ex.sarr(v.T), tight)))
+			}
+		}
 		if isPointerLike(v.Ty) {
-			st.assume(And(Ge(v.T, Num(0)), Le(v.T, st.alloc)))
+			st.assume(And(Ge(v.T, Num(0)), Le(v.T, bound)))
 		}
 		if _, ok := v.Ty.Underlying().(*types.Slice); ok {
 			ex.sliceFacts(st, v.T)
 			// the backing array of a slice that already exists was allocated earlier
-			st.assume(And(Ge(ex.sarr(v.T), Num(0)), Le(ex.sarr(v.T), st.alloc)))
+			st.assume(And(Ge(ex.sarr(v.T), Num(0)), Le(ex.sarr(v.T), bound)))
 		}
 	}
 }
